@@ -59,6 +59,7 @@ structure Stats where
   panics : Nat := 0
   cross : Nat := 0           -- recorded traces containing a cross-peer call (EnvX.lean)
   wide : Nat := 0            -- … containing one that is not a cross-sink call (compared, not judged)
+  cov : List String := []    -- `Namespace.constructor` of the model locations executed while replaying the scripts
 
 def specProps : List String := ["C07", "C08", "C09", "C10", "C11", "C12", "C15"]
 
@@ -81,7 +82,8 @@ def judgeLine (prop : String) (line : String) (st : Stats) : IO Stats := do
     | none => IO.println s!"BADLINE unknown instance {name}"; return st
     | some inst =>
       let some ms := (words script).mapM parseMove | IO.println s!"BADLINE script {script}"; return st
-      let model := traceTxt inst.M inst.fb ms
+      let (model, cov) := traceTxtCov inst.M inst.fb inst.locName ms st.cov
+      let st := { st with cov := cov }
       let rtoks := words real
       let mtoks := words model
       let (mx, nested) := nestingOf rtoks
@@ -177,6 +179,7 @@ def main (args : List String) : IO UInt32 := do
     return 0
   | ["judge", prop] =>
     let st ← judgeLoop prop (← IO.getStdin) {}
+    IO.println s!"COV {" ".intercalate st.cov}"
     IO.println s!"SUMMARY \{\"scripts\": {st.scripts}, \"nested\": {st.nested}, \"max_depth\": {st.maxDepth}, \"events\": {st.events}, \"mismatches\": {st.mismatches}, \"model_drift\": {st.fullMismatches}, \"flagged\": {st.flagged}, \"nonconformant\": {st.nonconf}, \"panics\": {st.panics}, \"cross_peer\": {st.cross}, \"compared_not_judged\": {st.wide}}"
     return 0
   | ["par"] => parLoop (← IO.getStdin); return 0
